@@ -13,10 +13,21 @@ import tsh, gen, vmstream
 F = tsh.F
 
 
+def fork_fails(kind, items):
+    """the family of fork checks (SoftFork.pred_fam): does the op raise on the removed items (top first)?"""
+    if kind == 0: return bool(items) and not F.bytes_to_bool(items[0])
+    if kind == 1: return any(not F.bytes_to_bool(x) for x in items)
+    if kind == 2: return len(items) >= 2 and items[0] != items[1]
+    if kind == 3: return bool(items) and len(items[0]) < 2
+    if kind == 4: return True
+    return False
+
+
 class ForkInstalled:
     """with-block: code -> fork op (through the implementation's own add_soft_fork), restored afterwards"""
-    def __init__(self, code, aliases=()):
+    def __init__(self, code, aliases=(), kind=0):
         self.code = code
+        self.kind = kind
         self.aliases = list(aliases)
 
     def __enter__(self):
@@ -33,7 +44,7 @@ class ForkInstalled:
             count = F.bytes_to_int(tape.read(1))
             tsh.E.sert(count >= 0, 'NOP count must not be negative')      # the very text of NOP: messages can be read back by scripts
             items = [stack.get() for _ in range(count)]
-            if items and not F.bytes_to_bool(items[0]):
+            if fork_fails(self.kind, items):
                 if tsh._Capture.log is not None:
                     tsh._Capture.log.append('e%d' % code)
                 raise tsh.E.ScriptExecutionError('soft fork check failed')
@@ -69,6 +80,7 @@ def fork_task(task):
             stats['stopped-on-time-budget'] += 1
             break
         code = rng.choice(codes)
+        kind = rng.choice([0, 0, 1, 2, 3, 4, 5])
         cfg = vmstream.rand_cfg(rng, 'default' if rng.random() < 0.7 else 'general')
         g = gen.Gen(rng, contracts=cfg.contracts, max_depth=4)
         g.fork_code = code
@@ -76,19 +88,19 @@ def fork_task(task):
         cv = g.cache_vals()
         if auth:
             scripts = [g.program(1, 5) for _ in range(rng.randint(1, 3))]
-            with ForkInstalled(code):
+            with ForkInstalled(code, kind=kind):
                 a = tsh.impl_run_auth(scripts, cv, cfg)
             b = tsh.impl_run_auth(scripts, cv, cfg)
-            ma = model.run_auth_fork(code, scripts, cv, cfg)
-            case = dict(scripts=[s.hex() for s in scripts], cache=tsh.cache_str(cv, False), cfg=cfg.to_json(), fork_code=code)
+            ma = model.run_auth_fork(code + 256 * kind, scripts, cv, cfg)
+            case = dict(scripts=[s.hex() for s in scripts], cache=tsh.cache_str(cv, False), cfg=cfg.to_json(), fork_code=code, fork_kind=kind)
             nfork = sum(s.count(bytes([code])) for s in scripts)
         else:
             prog = g.program(1, 9)
-            with ForkInstalled(code):
+            with ForkInstalled(code, kind=kind):
                 a = tsh.impl_run_script(prog, cv, cfg)
             b = tsh.impl_run_script(prog, cv, cfg)
-            ma = model.run_script_fork(code, prog, cv, cfg)
-            case = dict(script=prog.hex(), cache=tsh.cache_str(cv, False), cfg=cfg.to_json(), fork_code=code)
+            ma = model.run_script_fork(code + 256 * kind, prog, cv, cfg)
+            case = dict(script=prog.hex(), cache=tsh.cache_str(cv, False), cfg=cfg.to_json(), fork_code=code, fork_kind=kind)
             nfork = prog.count(bytes([code]))
         if 'recursion' in (a, b) or 'timeout' in (a, b):
             stats['skip-recursion/timeout'] += 1
@@ -108,6 +120,7 @@ def fork_task(task):
         t = tainted(a)
         outcomes[('auth ' if auth else '') + a.split(' | ')[0] + (' tainted' if t else '')] += 1
         stats['fork-ops-in-script>0'] += nfork > 0
+        stats['fork-kind-%d' % kind] += 1
         if not t:
             if a != b:
                 stats['direct-fail'] += 1
